@@ -41,7 +41,7 @@ def run(R, env):
             for bi, t in b.calls():
                 if t.get("rkey") == mk:
                     callers.add(b.key)
-        R.ob("C07.R1", "constructor-called-only-by-wrapper", callers and callers <= set(wrappers), "%s is called from %s; SubMsg wrappers are %s (a caller outside them sends an untracked transfer)" % (mk, sorted(callers), sorted(wrappers)), fn=mk)
+        R.ob("C07.R1", "constructor-called-only-by-wrapper", mk in wrappers or (callers and callers <= set(wrappers)), "%s is called from %s; SubMsg wrappers are %s (a caller outside them sends an untracked transfer)" % (mk, sorted(callers), sorted(wrappers)), fn=mk)
     R.floor("C07.R1", "SubMsg wrappers", len(wrappers), 1)
     for wk, (b, bi, si, t) in wrappers.items():
         c = Ctx(b)
@@ -50,19 +50,28 @@ def run(R, env):
         msg = agg_field(t, "msg")
         mc = shared.unwrap_payload(msg) if msg is not None else ("none",)
         is_maker = mc[0] == "call" and shared._body_of_call(prog, mc) is not None and shared._body_of_call(prog, mc).key in makers
-        R.ob("C07.R1", "wrapper:msg-is-the-transfer", is_maker, "SubMsg.msg = %s; expected the MsgTransfer built by the single constructor" % fmt(msg or ("none",))[:120], loc=b.loc(bi, si), fn=wk)
+        # the transfer may also be built in the wrapper itself
+        own = mc[0] == "agg" and mc[1].endswith("transfer::v1::MsgTransfer") and wk in makers
+        R.ob("C07.R1", "wrapper:msg-is-the-transfer", is_maker or own, "SubMsg.msg = %s; expected the MsgTransfer built by the single constructor" % fmt(msg or ("none",))[:120], loc=b.loc(bi, si), fn=wk)
         sid = agg_field(t, "id")
-        if not is_maker:
+        if not (is_maker or own):
             continue
-        recv, amt = mc[2][2], mc[2][3]
+        trs_ = shared.transfers(prog, c, env)
+        if len(trs_) != 1:
+            R.ob("C07.R1", "wrapper:one-transfer", False, "the wrapper builds %d transfers" % len(trs_), fn=wk)
+            continue
+        recv = trs_[0]["receiver"]
+        tok_amt, tok_den = trs_[0]["amount"], trs_[0]["denom"]
         ws = [o for o in storage_ops_deep(prog, c, env.depth) if o["kind"] == "w"]
         wsave = [o for o in ws if ns_of(prog, o["args"][0]) == "ibc_waiting_for_reply" and o["op"] == "save"]
         R.ob("C07.R1", "wrapper:write-set", len(ws) == 1 and len(wsave) == 1, "storage writes in the wrapper: %s; expected exactly one IBC_WAITING_FOR_REPLY.save" % [(ns_of(prog, o["args"][0]), o["op"]) for o in ws], fn=wk)
         for o in wsave:
             k, v = o["args"][2], o["args"][3]
             R.ob("C07.R1", "wrapper:record-key==submsg-id", same(k, sid), "waiting record saved under %s but SubMsg.id = %s" % (fmt(k)[:100], fmt(sid)[:100]), loc=o["loc"], fn=wk)
-            good = v[0] == "agg" and same(agg_field(v, "amount"), amt) and same(agg_field(v, "receiver"), recv)
-            R.ob("C07.R1", "wrapper:record==message", good, "waiting record %s vs message (receiver %s, amount %s)" % (fmt(v)[:160], fmt(recv)[:60], fmt(amt)[:60]), loc=o["loc"], fn=wk)
+            v = shared.written_agg(prog, o)
+            ra, rd = shared.coin_parts(agg_field(v, "amount") or ("none",), 0, prog) if v[0] == "agg" else (None, None)
+            good = v[0] == "agg" and ra is not None and tok_amt is not None and same(ra, tok_amt) and same(rd, tok_den) and recv is not None and same(agg_field(v, "receiver"), recv)
+            R.ob("C07.R1", "wrapper:record==message", good, "waiting record %s vs message (receiver %s, amount %s)" % (fmt(v)[:160], fmt(recv or ("none",))[:60], fmt(tok_amt or ("none",))[:60]), loc=o["loc"], fn=wk)
             R.ob("C07.R1", "wrapper:record-on-every-success-path", must_pass(c, o["root_bb"]), "the wrapper can return the SubMsg without recording it", loc=o["loc"], fn=wk)
         # occupied key refused: in the context where the save lives, the save block is unreachable when may_load(key) is Some
         for cc, path in inline_walk(prog, c, env.depth):
